@@ -24,6 +24,7 @@ INIT = [5, 0, 7, 0, 1, 2, 3, 4, 0, 0, 0, 0, 11, 9]
 def gen_prog(rng):
     n = rng.range(2, 8)
     lines = []
+    glob = rng.chance(1, 2)                               # messages whose buffers are globals / stack accesses observed
     hot = [rng.below(NVARS) for _ in range(3)]            # a few variables everybody fights over
     step = 0
     for _ in range(rng.range(3, 9)):
@@ -38,7 +39,17 @@ def gen_prog(rng):
                 else:
                     lines.append("%d r %d" % (r, v))
         k = rng.below(5)
-        if k == 0:
+        if glob:
+            for r in order:
+                if rng.chance(1, 3):
+                    lines.append("%d ws %d %d" % (r, rng.below(4), 500 * (r + 1) + step))
+            k = rng.below(8)
+        if k >= 5:                                            # one message with a global on at least one side
+            a = rng.below(n)
+            b = (a + 1 + rng.below(n - 1)) % n
+            m = ["gg", "gs", "sg"][k - 5]
+            lines += ["%d gsend %d %s" % (a, b, m), "%d grecv %d %s" % (b, a, m)]
+        elif k == 0:
             lines.append("* barrier")
         elif k == 1:
             lines.append("* bcast %d" % rng.below(n))
@@ -54,10 +65,40 @@ def gen_prog(rng):
         for r in range(n):
             if rng.chance(1, 2):
                 lines.append("%d r %d" % (r, rng.choice(hot)))
+            if glob and rng.chance(1, 2):
+                lines.append("%d %s %d" % (r, rng.choice(["rs", "rr"]), rng.below(4)))
+            if glob and rng.chance(1, 3):
+                lines.append("%d r %d" % (r, 4 + rng.below(8)))      # g_arr / s_zarr: the message buffers
     for r in range(n):
         for v in hot:
             lines.append("%d r %d" % (r, v))
-    return {"n": n, "lines": lines}
+    return {"n": n, "lines": lines, "glob": glob}
+
+
+def prog_query(prog):
+    """whole program for the address-level model (Segment.lean): ops in script order"""
+    n = prog["n"]
+    toks = ["P", str(n), "I"] + [str(v) for v in INIT]
+    for l in prog["lines"]:
+        t = l.split()
+        c = t[1]
+        ranks = range(n) if t[0] == "*" else [int(t[0])]
+        if c in ("w", "r", "ws", "rs", "rr"):
+            for r in ranks:
+                toks += [c, str(r)] + t[2:]
+        elif c == "gsend":
+            toks += [t[3], t[0], t[2]]
+        elif c == "send":
+            toks += ["sr", t[0], t[2]]
+        elif c == "bcast":
+            toks += ["bc", t[2]]
+        elif c == "ring":
+            toks += ["ring"]
+    return " ".join(toks)
+
+
+def prog_answer(prog, reads):
+    return " ".join("| " + " ".join(reads.get(r, [])) if reads.get(r) else "|" for r in range(prog["n"]))
 
 
 def rank_query(prog, r):
@@ -141,10 +182,14 @@ def run(ctx):
                 ctx.violation("the program does not run under privatization %s: %s" % (priv, err),
                               {"prog": prog, "privatization": priv}, key="privatization-run-fails")
                 continue
-            for r in range(prog["n"]):
-                qlines.append(rank_query(prog, r) + " => " + " ".join(reads.get(r, [])))
-                owners.append((pi, priv, r))
-        if not ctx.replay and pi < 6:
+            if not prog.get("glob"):
+                for r in range(prog["n"]):
+                    qlines.append(rank_query(prog, r) + " => " + " ".join(reads.get(r, [])))
+                    owners.append((pi, priv, r))
+            # the whole program against the address-level model (messages may use globals as buffers)
+            qlines.append(prog_query(prog) + " => " + prog_answer(prog, reads))
+            owners.append((pi, priv, -1))
+        if not ctx.replay and pi < 6 and not prog.get("glob"):
             # sanity: the harness can see a leak (privatization off: all ranks share the variables)
             reads, err = R.run(prog, "no")
             if reads is not None:
@@ -155,15 +200,19 @@ def run(ctx):
     if rc != 0 or not verdicts or verdicts[-1] != "END %d" % len(qlines):
         ctx.broken.append({"kind": "driver-run", "rc": rc, "stderr": err[-2000:]})
         return
-    if not ctx.replay and leaks_off == 0:
+    if not ctx.replay and leaks_off == 0 and any(not p.get("glob") for p in progs[:6]):
         ctx.broken.append({"kind": "sanity", "what": "with privatization off no leak was observed: the harness is blind"})
     strat = {}
+    msgs = {}
     for l, v, (pi, priv, r) in zip(qlines, verdicts, owners):
         ctx.cov["evaluations"] += 1
         strat[priv] = strat.get(priv, 0) + 1
         q = l.split(" => ")[0].split()
         if q.count("w") >= 1 and q.count("r") >= 2:
             ctx.cov["distinct_nontrivial"] += 1
+        if q[0] == "P":
+            for m in ("gg", "gs", "sg"):
+                msgs[m] = msgs.get(m, 0) + q.count(m)
         if v == "ok":
             ctx.cov["traces_validated_against_impl"] += 1
         elif v.startswith("MONFAIL"):
@@ -173,4 +222,5 @@ def run(ctx):
             ctx.broken.append({"kind": "driver-badline", "line": l[:300], "verdict": v[:200]})
     ctx.cov["samples"] = qlines[:2] + qlines[20:22]
     ctx.cov["distribution"] = {"rank_runs_by_strategy": strat, "programs": len(progs),
-                               "leaks_seen_with_privatization_off": leaks_off}
+                               "leaks_seen_with_privatization_off": leaks_off,
+                               "messages_with_global_buffers": msgs}
